@@ -12,14 +12,14 @@
 //! Oracle bits carried by the steps are fixed by construction: the harness knows whether it
 //! presents the right password, the TOTP code of which window, a registered backup code; the
 //! soft-lock bit is set exactly when the step's time lies within one second after a failure
-//! that this harness caused on the same credential (sessions are otherwise two days apart).
+//! that this harness caused on the same credential (sessions of one account are otherwise a day apart).
 use kanidm_proto::v1::{AuthAllowed, AuthCredential, AuthIssueSession, AuthMech, AuthStep};
 use kanidmd_lib::credential::totp::{Totp, TotpAlgo, TotpDigits};
 use kanidmd_lib::entry::{Entry, EntryInit, EntryNew};
 use kanidmd_lib::idm::authentication::{AuthState, ClientAuthInfo};
 use kanidmd_lib::idm::delayed::DelayedAction;
 use kanidmd_lib::idm::event::AuthEvent;
-use kanidmd_lib::idm::server::{IdmServer, IdmServerDelayed};
+use kanidmd_lib::idm::server::{IdmServer, IdmServerAuthTransaction, IdmServerDelayed};
 use kanidmd_lib::prelude::*;
 use kanidmd_lib::testkit::{setup_idm_test, TestConfiguration};
 use kanidmd_lib::value::{AuthType, SessionScope};
@@ -215,11 +215,11 @@ async fn mk_account(idms: &IdmServer, n: u64, prim: Prim, pwbad: bool, n_totp: u
     let mut totps = vec![];
     let cred = match prim {
         Prim::None => None,
-        Prim::Pw => Some(hook28::cred_new_password(pw)),
+        Prim::Pw => Some(hook::cred_new_password(pw)),
         Prim::Gen => Some(hook::cred_new_generated_password(pw)),
         Prim::Mfa { totp, backup } => {
             assert!(totp, "a stored password+MFA credential needs a TOTP or a security key");
-            let mut c = hook28::cred_new_password(pw);
+            let mut c = hook::cred_new_password(pw);
             for i in 0..n_totp {
                 let algo = if i == 0 { TotpAlgo::Sha256 } else { TotpAlgo::Sha1 };
                 let t = Totp::new(rng.bytes(24), 30, algo, TotpDigits::Six);
@@ -279,11 +279,12 @@ async fn add_badlist(idms: &IdmServer, pw: &str) {
 }
 
 // ------------------------------------------------------------------ driving one session
-struct World {
-    idms: IdmServer,
+struct World<'i> {
+    idms: &'i IdmServer,
     delayed: IdmServerDelayed,
     rt: tokio::runtime::Runtime,
 }
+type Txn<'i> = IdmServerAuthTransaction<'i>;
 
 fn junk_assertion(kind: &str) -> AuthCredential {
     let j = format!(
@@ -337,19 +338,29 @@ fn reason_of(s: &str) -> &'static str {
     }
 }
 
-impl World {
+impl<'i> World<'i> {
+    /// one auth transaction serves a whole case (a transaction per call costs a millisecond)
+    fn txn(&self) -> Txn<'i> {
+        let idms = self.idms;
+        self.rt.block_on(idms.auth()).expect("auth txn")
+    }
+
     /// drain the delayed-action queue: (session records, backup code removals, others)
     fn drain(&mut self) -> Vec<DelayedAction> {
+        use std::future::Future;
+        use std::task::{Context, Poll, Waker};
         let mut all = vec![];
         loop {
             let mut buf: Vec<DelayedAction> = Vec::with_capacity(16);
-            let delayed = &mut self.delayed;
-            let n = self.rt.block_on(async {
-                match tokio::time::timeout(Duration::from_millis(0), delayed.recv_many(&mut buf)).await {
-                    Ok(n) => n,
-                    Err(_) => 0,
+            // poll the queue once, without a timer (a zero timeout costs a millisecond per call)
+            let n = {
+                let mut fut = std::pin::pin!(self.delayed.recv_many(&mut buf));
+                let mut cx = Context::from_waker(Waker::noop());
+                match fut.as_mut().poll(&mut cx) {
+                    Poll::Ready(n) => n,
+                    Poll::Pending => 0,
                 }
-            });
+            };
             if n == 0 {
                 break;
             }
@@ -359,12 +370,8 @@ impl World {
     }
 
     /// one `auth` call; translate the answer
-    fn call(&mut self, who: &Acct, ev: AuthEvent, ct: u64) -> (Ans, Uuid) {
-        let idms = &self.idms;
-        let r = self.rt.block_on(async {
-            let mut a = idms.auth().await.expect("auth txn");
-            a.auth(&ev, d(ct), cai()).await
-        });
+    fn call(&mut self, a: &mut Txn<'i>, who: &Acct, ev: AuthEvent, ct: u64) -> (Ans, Uuid) {
+        let r = self.rt.block_on(a.auth(&ev, d(ct), cai()));
         let acts = self.drain();
         let mut recs = vec![];
         let mut bkrm = 0;
@@ -455,17 +462,17 @@ impl World {
         (Ans { coq, txt, class }, sid)
     }
 
-    fn init(&mut self, who: &Acct, ct: u64, privileged: bool) -> (Ans, Uuid) {
+    fn init(&mut self, a: &mut Txn<'i>, who: &Acct, ct: u64, privileged: bool) -> (Ans, Uuid) {
         let ev = AuthEvent::from_message(
             None,
             AuthStep::Init2 { username: who.name.clone(), issue: AuthIssueSession::Token, privileged }.into(),
         )
         .expect("init ev");
-        self.call(who, ev, ct)
+        self.call(a, who, ev, ct)
     }
 
     /// returns the answer and the step as really presented (TOTP kind after re-labelling)
-    fn step(&mut self, who: &Acct, sid: Uuid, s: Step, ct: u64, variant: usize) -> (Ans, Step) {
+    fn step(&mut self, a: &mut Txn<'i>, who: &Acct, sid: Uuid, s: Step, ct: u64, variant: usize) -> (Ans, Step) {
         let (astep, real) = match s {
             Step::Begin(m) => (AuthStep::Begin(m.real()), s),
             Step::Cred(c) => {
@@ -487,7 +494,7 @@ impl World {
             }
         };
         let ev = AuthEvent::from_message(Some(sid), astep.into()).expect("step ev");
-        let (ans, _) = self.call(who, ev, ct);
+        let (ans, _) = self.call(a, who, ev, ct);
         (ans, real)
     }
 }
@@ -549,36 +556,44 @@ fn phase_after(p: Phase, s: Step, a: &Ans) -> Phase {
     }
 }
 
-struct Gen {
-    w: World,
+struct Gen<'i> {
+    w: World<'i>,
     sink: Sink,
     slot: u64,
+    days: Vec<u64>,
+    tmax: u64,
 }
-impl Gen {
-    /// a fresh two-day slot: nothing this harness did before can still hold a soft lock
-    fn fresh_time(&mut self) -> u64 {
+impl<'i> Gen<'i> {
+    /// a fresh day for this account: nothing this harness did before can still hold (or count
+    /// towards) a soft lock on its credential; `slot` numbers all sessions of the run
+    fn fresh_time(&mut self, ai: usize) -> u64 {
         self.slot += 1;
-        if self.slot % 2000 == 0 {
-            let idms = &self.w.idms;
-            let ct = (BASE + self.slot * 2 * DAY) * G;
-            self.w.rt.block_on(async {
-                let mut a = idms.auth().await.expect("auth txn");
-                a.expire_auth_sessions(d(ct)).await;
-            });
+        while self.days.len() <= ai {
+            self.days.push(0);
         }
-        (BASE + self.slot * 2 * DAY + 3600) * G
+        self.days[ai] += 1;
+        let secs = BASE + self.days[ai] * DAY + 3600;
+        assert!(secs < 18_000_000_000, "too many sessions for one account: times leave the u64 nanosecond range");
+        self.tmax = self.tmax.max(secs);
+        if self.slot % 2000 == 0 {
+            // all earlier sessions are finished: drop them from the server's session table
+            let mut a = self.w.txn();
+            self.w.rt.block_on(a.expire_auth_sessions(d(self.tmax * G)));
+        }
+        secs * G
     }
 
     /// run one plain session: Init at t0 (+jitter), step i at t0 + 2(i+1) s
     fn run_plain(&mut self, who: &Acct, t0: u64, privileged: bool, steps: &[Step], variant: usize) -> (Sess, Phase) {
-        let (init, sid) = self.w.init(who, t0, privileged);
+        let mut a = self.w.txn();
+        let (init, sid) = self.w.init(&mut a, who, t0, privileged);
         let mut phase = if init.class == Class::Choose { Phase::Init } else { Phase::Dead };
         let mut evs = vec![];
         for (i, s) in steps.iter().enumerate() {
             let ct = t0 + 2 * (i as u64 + 1) * G + (variant as u64 % 7) * 100_000_000;
-            let (a, real) = self.w.step(who, sid, *s, ct, variant + i);
-            phase = phase_after(phase, real, &a);
-            evs.push((real, false, a));
+            let (ans, real) = self.w.step(&mut a, who, sid, *s, ct, variant + i);
+            phase = phase_after(phase, real, &ans);
+            evs.push((real, false, ans));
         }
         (Sess { ct: t0, privileged, init, evs }, phase)
     }
@@ -632,7 +647,7 @@ fn main() {
     let mut rng = Rng::new(args.seed);
     let mut sink = Sink::new(&args, "KV.C27.Model", 400);
     sink.rule = "one case = one authentication session (CSess) or two interleaved sessions of one account (CInter) on a real in-memory IdmServer, driven through auth Init/Begin/Cred. \
-(1) exhaustive: for each of 9 account shapes (no credential, password, generated password, badlisted password, password+TOTP, +2 TOTP, +TOTP+backup codes, badlisted password+TOTP+backup, anonymous) every step sequence up to length 4 (quick) / 5 (thorough) over {7 mechanisms} x {anonymous, right/wrong password, TOTP of current/previous/older/next window/wrong, right/wrong backup code, junk security-key and passkey assertions}, pruned: before a mechanism is chosen 3 representative credential steps, while in progress 2 representative Begin steps, after the session ended exactly one further step; \
+(1) exhaustive: for each of 9 account shapes (no credential, password, generated password, badlisted password, password+TOTP, +2 TOTP, +TOTP+backup codes, badlisted password+TOTP+backup, anonymous) every step sequence up to length 4 (quick) / 5 (thorough) over {7 mechanisms} x {anonymous, right/wrong password, TOTP of current/previous/older/next window/wrong, right/wrong backup code, junk security-key and passkey assertions}, pruned: before a mechanism is chosen 3 representative credential steps, while in progress 2 representative Begin steps, after the session ended exactly one further step (6 representatives); \
 (2) validity: sessions begun 1 ns before / exactly at / after valid_from and expire; (3) soft lock: sessions begun, continued or re-begun within / exactly at / just after one second of a failure on the same credential, and random interleavings of two sessions; (4) random sequences up to length 10 over the full alphabet. \
 non-trivial = at least one credential step was processed by a handler (answered Success, Continue or Denied)".into();
     let rt = tokio::runtime::Builder::new_current_thread().enable_all().build().expect("rt");
@@ -656,7 +671,7 @@ non-trivial = at least one credential step was processed by a handler (answered 
     }
     accts.push(Acct { name: "anonymous".to_string(), uuid: UUID_ANONYMOUS, anon: true, prim: Prim::None, pwbad: false, cred_id: None, totps: vec![], vf: None, ex: None });
 
-    let mut g = Gen { w: World { idms, delayed, rt }, sink, slot: 0 };
+    let mut g = Gen { w: World { idms: &idms, delayed, rt }, sink, slot: 0, days: vec![], tmax: 0 };
     let _ = g.w.drain();
 
     // ---------------------------------------------------------------- (1) exhaustive, pruned
@@ -673,7 +688,7 @@ non-trivial = at least one credential step was processed by a handler (answered 
                 for s in alphabet(*phase, false) {
                     let mut seq2 = seq.clone();
                     seq2.push(s);
-                    let t0 = g.fresh_time();
+                    let t0 = g.fresh_time(ai);
                     let privileged = (g.slot % 3) == 0;
                     let variant = g.slot as usize;
                     let (sess, ph2) = g.run_plain(&accts[ai], t0, privileged, &seq2, variant);
@@ -721,10 +736,10 @@ non-trivial = at least one credential step was processed by a handler (answered 
         for _ in 0..reps {
             for (vf, ex) in &windows {
                 for p in &paths {
-                    let t0 = g.fresh_time();
+                    let t0 = g.fresh_time(ai);
                     let abs = |o: &Option<i64>| o.map(|x| (t0 as i64 + x) as u64);
                     let rtm = &g.w.rt;
-                    rtm.block_on(set_window(&g.w.idms, &mut accts[ai], abs(vf), abs(ex)));
+                    rtm.block_on(set_window(&idms, &mut accts[ai], abs(vf), abs(ex)));
                     let variant = g.slot as usize;
                     let (sess, _) = g.run_plain(&accts[ai], t0, variant % 2 == 0, p, variant);
                     g.emit_sess("validity", &accts[ai], &sess);
@@ -732,23 +747,24 @@ non-trivial = at least one credential step was processed by a handler (answered 
             }
         }
         let rtm = &g.w.rt;
-        rtm.block_on(set_window(&g.w.idms, &mut accts[ai], None, None));
+        rtm.block_on(set_window(&idms, &mut accts[ai], None, None));
     }
 
     // ---------------------------------------------------------------- (3) soft lock and interleaving
     // steps of two sessions A (index 0) and B (index 1) of one account at explicit offsets from t0
-    let n_inter = if args.thorough { 4000 } else { 600 };
+    let n_inter = if args.thorough { 6000 } else { 1000 };
     let gaps: [u64; 7] = [G / 4, G / 2, G - 1, G, G + 1, 2 * G, 5 * G / 2];
     for k in 0..n_inter {
         let ai = *rng.pick(&[1usize, 2, 3, 4, 5, 6, 7]);
         let who = &accts[ai];
-        let t0 = g.fresh_time();
+        let t0 = g.fresh_time(ai);
         let mut t = t0;
         let pa = rng.chance(1, 2);
         let pb = rng.chance(1, 2);
-        let (init_a, sid_a) = g.w.init(who, t, pa);
+        let mut txn = g.w.txn();
+        let (init_a, sid_a) = g.w.init(&mut txn, who, t, pa);
         t += 1 + rng.below(1000);
-        let (init_b, sid_b) = g.w.init(who, t, pb);
+        let (init_b, sid_b) = g.w.init(&mut txn, who, t, pb);
         let ct_b = t;
         let mut sa = Sess { ct: t0, privileged: pa, init: init_a, evs: vec![] };
         let mut sb = Sess { ct: ct_b, privileged: pb, init: init_b, evs: vec![] };
@@ -796,7 +812,7 @@ non-trivial = at least one credential step was processed by a handler (answered 
                 }
             };
             let locked = locked_until.map(|u| t <= u).unwrap_or(false);
-            let (a, real) = g.w.step(who, sids[which], s, t, k as usize);
+            let (a, real) = g.w.step(&mut txn, who, sids[which], s, t, k as usize);
             // a failure is recorded when a credential step of a soft-lockable handler is denied by the handler
             if let (Phase::InProgress(m), Step::Cred(_), Class::Denied) = (phases[which], real, a.class) {
                 if m.softlockable() {
@@ -819,7 +835,7 @@ non-trivial = at least one credential step was processed by a handler (answered 
     }
 
     // ---------------------------------------------------------------- (4) random long sequences
-    let n_rand = if args.thorough { 20000 } else { 2500 };
+    let n_rand = if args.thorough { 30000 } else { 4000 };
     for k in 0..n_rand {
         let ai = rng.below(accts.len() as u64) as usize;
         let len = rng.range(1, 10) as usize;
@@ -843,7 +859,7 @@ non-trivial = at least one credential step was processed by a handler (answered 
             };
             steps.push(s);
         }
-        let t0 = g.fresh_time();
+        let t0 = g.fresh_time(ai);
         let (sess, _) = g.run_plain(&accts[ai], t0, rng.chance(1, 2), &steps, k as usize);
         g.emit_sess("random", &accts[ai], &sess);
     }
